@@ -219,6 +219,24 @@ example : run { fns := [], main := [.log (.bin .add (.lit .u8 250) (.lit .u8 5))
                                     .log (.bin .add (.lit .u8 250) (.lit .u8 6))] } 10
     = .revert 0 [[255]] := by decide
 
+/-- **Well-typed programs do not get stuck — partial.** For the *closed scalar sub-fragment* (literals in range,
+`+ - * / % << >> & | ^ !`, comparisons, `&& || !`, widening casts, typed by `SwaySem.tyE`) evaluation at any fuel
+yields a value of the expression's type with state and logs unchanged, an arithmetic revert (`revert 0`, logs
+unchanged), or runs out of fuel — never `stuck`, `unsupported`, `oob`, nor a stray control signal. So in this
+fragment the semantics prescribes a revert exactly in the cases `arith_*_spec` enumerate.
+PARTIAL: variables, aggregates, control flow, calls are outside the typed fragment (for them `stuck` is ruled out
+only per program, by the driver: a `stuck` answer of the model is reported as a disagreement). -/
+theorem welltyped_no_stuck_partial (fns : List Fn) (n : Nat) (e : Expr) (t : STy) (s : St)
+    (hs : s.skip = 0) (ht : tyE e = some t) :
+    GoodRes s t ((evals fns n).e e s) ∧
+    (∀ l, (evals fns n).e e s ≠ .fail .stuck l) ∧ (∀ l, (evals fns n).e e s ≠ .fail .unsupported l) := by
+  have h := scalar_good fns n e t s hs ht
+  refine ⟨h, fun l hl => ?_, fun l hl => ?_⟩ <;> rw [hl] at h <;> exact h
+
+/-- non-vacuity: `(250u8 + 5u8) < 7u8 << 1` is in the typed fragment -/
+example : tyE (.cmp .lt (.bin .add (.lit .u8 250) (.lit .u8 5)) (.bin .shl (.lit .u8 7) (.lit .u64 1))) = some .bool := by
+  decide
+
 /-- **C01, partial.** What is proved: the reference semantics is well defined (fuel-independent once finished)
 and its arithmetic obeys the documented rules for every width and all operands.
 What is NOT proved: that the bytecode `forc` produces computes `SwaySem.run` — the 110k-line compiler is not
